@@ -185,7 +185,7 @@ open Babylon.Log.App
 
 /-! ### Part B — abstract event model of `AsyncFileAppender` (Babylon/Log/Appender.lean)
 
-The theorem is about the *model*: the queue is replaced by its specification (C01: items are popped
+The theorems are about the *model*: the queue is replaced by its specification (C01: items are popped
 in ticket order, only once published), `writev` is complete, descriptors come from an oracle.  The
 real appender is tied to the model by sampling only (checks/C20.py: multi-threaded runs whose
 recorded rounds are replayed through `App.step`).
@@ -212,7 +212,9 @@ without wake, so neither `write()` nor `close()` may push with futex wait — be
 67478f3 `close()` used the default `push<true, true, true>` and slept forever when it found the
 queue full (checks/C20.py runs that schedule on the real code on every run). -/
 theorem gen_queue_pairing :
-    (writePushFutexWait = true → popFutexWake = true) ∧ (closePushFutexWait = true → popFutexWake = true) := by
+    (writePushFutexWait = true → popFutexWake = true) ∧ (closePushFutexWait = true → popFutexWake = true) ∧
+    -- many logging threads and close() push concurrently: `CONCURRENT = true` (ticket by fetch_add)
+    writePushConcurrent = true ∧ closePushConcurrent = true := by
   decide
 
 /-- **appender_each_once_ordered.**  Take any event history of the model (any number of logging
@@ -227,15 +229,16 @@ after `close()`) such that
   each entry went to a single descriptor, in `writev` calls of 1…`IOV_MAX` elements;
 * entries of one thread are in `pre` in the order the thread wrote them;
 * the pages handed back to the allocator are, as a multiset, exactly the pages of `pre ++ post`. -/
-theorem appender_each_once_ordered (capacity : Nat) (evs : List Ev) (s : State)
-    (hrun : run (init capacity) evs = some s) (hwf : ∀ e ∈ evs, e.WF) (hexit : s.exited = true) :
+theorem appender_each_once_ordered (capacity : Nat) (files : List Nat) (hfiles : files.Nodup) (evs : List Ev)
+    (s : State) (hrun : run (session capacity files) evs = some s) (hwf : ∀ e ∈ evs, e.WF)
+    (hexit : s.exited = true) :
     ∃ post, post.Sublist ((s.hist.dropWhile nzs).drop 1) ∧
       (∀ f, written s f = ((s.hist.takeWhile nzs ++ post).filter (·.file = f)).flatMap (·.iov)) ∧
       (∀ f, (s.out.filter (·.file = f)).flatMap (·.items) = (s.hist.takeWhile nzs ++ post).filter (·.file = f)) ∧
       (∀ x ∈ s.out, FlushOk x) ∧
       (s.hist.takeWhile nzs).Pairwise (fun a b => a.tid = b.tid → a.seq < b.seq) ∧
       s.freed.Perm (pagesOf (s.hist.takeWhile nzs ++ post)) := by
-  have h := run_AInv evs (init_AInv capacity) hwf hrun
+  have h := run_AInv evs (session_AInv capacity files hfiles) hwf hrun
   obtain ⟨post, hp, hsub⟩ := h.exit_spec hexit
   refine ⟨post, hsub, ?_, ?_, h.flushOk, ?_, ?_⟩
   · intro f
@@ -254,12 +257,12 @@ theorem appender_each_once_ordered (capacity : Nat) (evs : List Ev) (s : State)
   · rw [← hp]; exact h.freedPerm
 
 /-- When nothing is written after `close()` the files hold exactly the entries written before it. -/
-theorem appender_no_write_after_close (capacity : Nat) (evs : List Ev) (s : State)
-    (hrun : run (init capacity) evs = some s) (hwf : ∀ e ∈ evs, e.WF) (hexit : s.exited = true)
+theorem appender_no_write_after_close (capacity : Nat) (files : List Nat) (hfiles : files.Nodup) (evs : List Ev)
+    (s : State) (hrun : run (session capacity files) evs = some s) (hwf : ∀ e ∈ evs, e.WF) (hexit : s.exited = true)
     (hlast : (s.hist.dropWhile nzs).drop 1 = []) :
     (∀ f, written s f = ((s.hist.takeWhile nzs).filter (·.file = f)).flatMap (·.iov)) ∧
     s.freed.Perm (pagesOf (s.hist.takeWhile nzs)) := by
-  obtain ⟨post, h1, h2, _, _, _, h6⟩ := appender_each_once_ordered capacity evs s hrun hwf hexit
+  obtain ⟨post, h1, h2, _, _, _, h6⟩ := appender_each_once_ordered capacity files hfiles evs s hrun hwf hexit
   rw [hlast] at h1
   have : post = [] := List.eq_nil_of_sublist_nil h1
   subst this
@@ -267,11 +270,28 @@ theorem appender_no_write_after_close (capacity : Nat) (evs : List Ev) (s : Stat
   exact ⟨h2, h6⟩
 
 /-- `hist` is the sequence of `reserve` / `close` events in the order they happened: ticket order. -/
-theorem appender_hist_is_ticket_order (capacity : Nat) (evs : List Ev) (s : State)
-    (hrun : run (init capacity) evs = some s) :
+theorem appender_hist_is_ticket_order (capacity : Nat) (files : List Nat) (evs : List Ev) (s : State)
+    (hrun : run (session capacity files) evs = some s) :
     s.hist.map itemKey = evs.filterMap evItem := by
   have := run_hist evs hrun
-  simpa [init] using this
+  simpa [session] using this
+
+/-- **Sessions.**  `initialize(); …; close()` can be repeated on the same appender with the same file
+objects: `close()` keeps `_destinations` and every `FileObject` keeps its cached index.  The first
+session starts from `session c []` (`= init c`); whatever a session did, its final state has one
+empty destination per file object used so far, without duplicates — exactly the start state
+`session c (those files)` of the next `initialize()`, to which the theorems above apply again (they
+hold for every duplicate-free `files`).  The descriptor supplied for a destination is arbitrary in
+every round (`fds`), in particular it may be an invalid one during a file-object outage: the pages
+of the round's entries are returned all the same (last clause of `appender_each_once_ordered`). -/
+theorem appender_session_restart (capacity : Nat) (files : List Nat) (hfiles : files.Nodup) (evs : List Ev)
+    (s : State) (hrun : run (session capacity files) evs = some s) (hwf : ∀ e ∈ evs, e.WF) :
+    init capacity = session capacity [] ∧
+    (session capacity (s.dests.map (·.file))).dests = s.dests ∧ (s.dests.map (·.file)).Nodup ∧
+    (session capacity (s.dests.map (·.file))).batch = s.batch := by
+  have h := run_AInv evs (session_AInv capacity files hfiles) hwf hrun
+  refine ⟨rfl, h.dests_idle.1.symm, h.dests_idle.2, ?_⟩
+  exact (run_batch evs hrun).symm
 
 /-- Non-vacuity: two threads, two files, an entry longer than one `writev`, rotation of file 7
 between the two rounds, `close()` — the hypotheses of the theorem are satisfiable and the run exits. -/
